@@ -147,9 +147,6 @@ def handle : List String → Option String
       | "xlsx" => pure (showPy showObj (renderXlsx e ⟨st, o⟩))
       | "sqlite" => pure (showPy showObj (bindSqlite e ⟨st, o⟩))
       | "text" => pure (showPy (fun s => "S" ++ cpHex s) (textPiece fs e ⟨st, o⟩))
-      | "csv-repaired" => pure (showPy showObj (Repaired.renderCsv e ⟨st, o⟩))
-      | "sqlite-repaired" => pure (showPy showObj (Repaired.bindSqlite e ⟨st, o⟩))
-      | "text-repaired" => pure (showPy (fun s => "S" ++ cpHex s) (Repaired.textPiece fs e ⟨st, o⟩))
       | _ => none
   | ["export.row", fmt, enc, pt, ncols, ft, op, ver, pver, src, page, loc, off, rowid, cols, fs] => do
       let e ← parseEnc enc
@@ -180,6 +177,29 @@ def handle : List String → Option String
       match fmt with
       | "sqlite" => pure (showPy (fun hs => ",".intercalate (hs.map cpHex)) (sqliteHeaders pt names n))
       | _ => none
+  | ["export.create", iso, name, pt, nidx, names] => do
+      -- the CREATE TABLE statement of the SQLite export (identifiers quoted)
+      let name ← parseCp name
+      let pt ← parsePt pt
+      let n ← nidx.toNat?
+      let names ← parseNames names
+      pure (showPy (fun hs => cpHex (createTableStatement (sqliteTableName (iso = "1") name) hs)) (sqliteHeaders pt names n))
+  | ["export.insert", iso, name, n] => do
+      let name ← parseCp name
+      let n ← n.toNat?
+      pure s!"ok {cpHex (insertStatement (sqliteTableName (iso = "1") name) n)}"
+  | ["export.sheettitle", name] => do
+      let name ← parseCp name
+      pure s!"ok {cpHex (sheetTitle name)}"
+  | ["export.csvstem", name] => do
+      let name ← parseCp name
+      pure s!"ok {cpHex (csvFileStem name)}"
+  | ["export.stored", "xlsx", obj] => do
+      let o ← parseObj obj
+      pure (match xlsxStored o with
+        | .empty => "ok empty"
+        | .number o => s!"ok number {showObj o}"
+        | .string s => s!"ok string {cpHex s}")
   | ["export.tablename", iso, name] => do
       let name ← parseCp name
       pure s!"ok {cpHex (sqliteTableName (iso = "1") name)}"
